@@ -579,7 +579,7 @@ class MapMapper(Mapper):
                 values, definitions, serialization_mapper=serialization_mapper
             )
             if pattern_props:
-                params[SCHEMA_PATTERN_PROPERTIES] = values_schema
+                params[SCHEMA_PATTERN_PROPERTIES] = {pattern_props: values_schema}
             elif values_schema:
                 params[SCHEMA_ADDITIONAL_PROPERTIES] = values_schema
         params["maxItems"] = value.maxItems
